@@ -470,7 +470,22 @@ func (tdsChan *Channel) NextPackage(ctx context.Context, wait bool) (Package, er
 func (tdsChan *Channel) NextPackageUntil(ctx context.Context, wait bool, processPkg func(Package) (bool, error)) (Package, error) {
 	eedError := &EEDError{}
 
-	for {
+	for first := true; ; first = false {
+		// NextPackage hands out a queued package before it looks at
+		// the contexts. While the server keeps sending a call that has
+		// been cancelled would go on for as long as packages arrive -
+		// check the contexts before taking another package.
+		if !first {
+			if ctx != nil {
+				if err := ctx.Err(); err != nil {
+					return nil, fmt.Errorf("passed context is closed: %w", err)
+				}
+			}
+			if err := tdsChan.tdsConn.ctx.Err(); err != nil {
+				return nil, fmt.Errorf("connection context is closed: %w", err)
+			}
+		}
+
 		pkg, err := tdsChan.NextPackage(ctx, wait)
 		if err != nil {
 			return nil, err
